@@ -76,6 +76,10 @@ pub fn scenarios(tier: &str) -> Vec<Scenario> {
     v.push(Scenario::new("trees_depth2_nodes3_output_and_ids_varied", &must, || {
         run(&Opts { max_depth: 2, max_nodes: 3, max_children: 2, vary_output: true, vary_ids: true, reply_subs: false, inst_leaves: false })
     }));
+    // three contracts deep (seed C03e: what a Reply carries depends on what happened two levels below)
+    v.push(Scenario::new("chains_of_three_contracts_output_varied", &must, || {
+        run(&Opts { max_depth: 3, max_nodes: 3, max_children: 1, vary_output: true, vary_ids: false, reply_subs: false, inst_leaves: false })
+    }));
     v.push(Scenario::new("trees_depth2_nodes2_root_dispatched_by_sudo_or_migrate", &must, || {
         run_from(&Opts { max_depth: 2, max_nodes: 2, max_children: 1, vary_output: true, vary_ids: true, reply_subs: false, inst_leaves: false }, true)
     }));
